@@ -330,6 +330,50 @@ def run_case(case):
                 cov['fault_sites']['callback/%s' % site] = 1
                 judge(verdict, detail, committed, 'user callback %s raising at row %s (via %s)' % (site, at_row, via),
                       cls, 'callback:%s' % site.split('/')[0])
+    if fam == 'callback_fault' and case['pos'] == 0:
+        # a failure inside a built-in step that is caused by the DATA: a target row of a join lacks its key cell (an earlier
+        # step removed it), or a '{geo[code]}' key points into an object cell without that member - the key cannot be
+        # computed, which is not the same as "no match"
+        d = lab.df()
+        for mode in ('inner', 'half-outer', 'full-outer'):
+            for variant in ('missing_key_cell', 'missing_member'):
+                tag = 'jk_%s_%s' % (mode, variant)
+
+                def make_steps(tag_, mode=mode, variant=variant):
+                    src = [{'k': i, 'geo': {'code': i}, 'v': 'v%d' % i} for i in range(4)]
+                    tgt = [{'k': i % 4, 'geo': {'code': i % 4}, 't': i} for i in range(6)]
+
+                    def damage(rows):
+                        for i, row in enumerate(rows):
+                            if rows.res.name == 'tgt' and i == 3:
+                                if variant == 'missing_key_cell':
+                                    del row['k']
+                                else:
+                                    row['geo'] = {}
+                            yield row
+                    key = ['k'] if variant == 'missing_key_cell' else '{geo[code]}'
+                    st = [src, d.update_resource(-1, name='src'), tgt, d.update_resource(-1, name='tgt'), damage,
+                          d.join('src', key, 'tgt', key, {'v': {'name': 'v'}}, mode=mode), d.dump_to_path('JD_' + tag_)]
+                    return st, [('dump', 'JD_' + tag_)]
+                steps_, obs_after = make_steps(tag)
+                err = None
+                try:
+                    with boot.quiet():
+                        d.Flow(*steps_).process()
+                except Exception as e:
+                    err = e
+                counters['faults_armed'] += 1
+                counters['faults_fired'] += 1
+                counters['artifact_checks'] += 1
+                cov['fault_sites']['join_target_key/%s/%s' % (variant, mode)] = 1
+                cov['class_x_phase']['KeyError/data:join_target_key'] = 1
+                committed = [(k, loc) for k, loc in obs_after if artifact_committed(k, loc)]
+                if err is None:
+                    add('returned_normally', 'join(mode=%s): the key of target row 3 cannot be computed (%s) but the run returned '
+                        'normally' % (mode, variant), 'returned_normally/KeyError/data_join_target_key', exc_class='KeyError')
+                for k, loc in committed:
+                    add('artifact_committed', 'join(mode=%s), key of a target row not computable (%s): %s at %s was committed'
+                        % (mode, variant, k, loc), 'artifact_committed/%s/data_join_target_key' % k, exc_class='KeyError')
     if fam == 'source_fault':
         d = lab.df()
         n = 150
